@@ -96,6 +96,9 @@ func runOverlap(c overlapCase) *rp.Fail {
 	if c.Kind == "process-signal" {
 		return checkProcessSignal(c)
 	}
+	if c.Kind == "stop-before-listen" {
+		return checkStopBefore(c)
+	}
 	port, err := farm.FreePort([4]byte{127, 0, 0, 1})
 	if err != nil {
 		return nil
@@ -351,6 +354,8 @@ func sweepOverlap(yield func(overlapCase) bool) {
 		{Kind: "two-sites", Events: 5, Debug: true},
 		{Kind: "restart-while-callback-busy", Events: 0, Debug: true},
 		{Kind: "stop-from-callback", Events: 4, Debug: true},
+		{Kind: "stop-before-listen", Events: 1},
+		{Kind: "stop-before-listen", Events: 2, Debug: true},
 		{Kind: "stop-from-callback", Events: 2, Malformed: 1},
 		{Kind: "stop-from-callback", Events: 3, Malformed: 5, Debug: true},
 	}
@@ -611,6 +616,42 @@ func checkProcessSignal(c overlapCase) *rp.Fail {
 		}
 		if l, err := net.ListenUDP("udp4", dest); err != nil {
 			return rp.Failf("uhppote.Listen/process-signal/address-still-bound", "cycle %d: listen address not free after Listen returned: %v", cycle, err)
+		} else {
+			l.Close()
+		}
+	}
+	return nil
+}
+
+// stop-before-listen: the stop request is already in the (buffered) channel when Listen is called - the user pressed Ctrl-C
+// during start-up, a supervisor asked twice. The listener stops when signalled, whenever the signal was given: Listen returns
+// without error, the address is free, and a later Listen on the same client with the same channel works as usual.
+func checkStopBefore(c overlapCase) *rp.Fail {
+	port, err := farm.FreePort([4]byte{127, 0, 0, 1})
+	if err != nil {
+		return nil
+	}
+	dest := &net.UDPAddr{IP: net.IPv4(127, 0, 0, 1), Port: int(port)}
+	u := hook.Real(hook.ClientCfg{HasListen: true, ListenIP: [4]byte{127, 0, 0, 1}, ListenPort: port, Debug: c.Debug})
+	q := make(chan os.Signal, 4)
+	for i := 0; i < c.Events; i++ { // (Events = how many stop requests are waiting)
+		q <- os.Interrupt
+	}
+	for cycle := 0; cycle < c.Events; cycle++ {
+		rec := &orderRec{}
+		done := make(chan error, 1)
+		go func() { done <- u.Listen(rec, q) }()
+		select {
+		case err := <-done:
+			if err != nil {
+				return rp.Failf("uhppote.Listen/stop-before-listen/stop-error", "Listen returned %v (a stop request was waiting in the channel when it was called)", err)
+			}
+		case <-time.After(10 * time.Second):
+			q <- os.Interrupt
+			return rp.Failf("uhppote.Listen/stop-before-listen/does-not-stop", "Listen call %d has not returned 10 s after it was called although a stop request was waiting in its channel (%d were put there before the first call)", cycle+1, c.Events)
+		}
+		if l, err := net.ListenUDP("udp4", dest); err != nil {
+			return rp.Failf("uhppote.Listen/stop-before-listen/address-still-bound", "listen address not free after Listen returned: %v", err)
 		} else {
 			l.Close()
 		}
